@@ -258,7 +258,15 @@ class Runner(object):
                 op = dict(op, attr={**op['attr'], 8: ['NO_EXPORT']})      # a peer cannot send a community without a value
             w.deliver(encode(op), self.tr)
         else:
-            code, body = w.rest('POST', 'send/update', json_body=rest_post(op))
+            post = rest_post(op)
+            # members a client has nothing to say about may be left out, sent as null, or sent empty
+            spell = self.stats['steps'] % 4
+            if spell in (1, 2):
+                for k_, empty in (('nlri', []), ('withdraw', []), ('attr', {})):
+                    if k_ not in post:
+                        post[k_] = None if spell == 1 else empty
+                self.stats['null_or_empty_members'] = self.stats.get('null_or_empty_members', 0) + 1
+            code, body = w.rest('POST', 'send/update', json_body=post)
             if not (code == 200 and body and body.get('status') is True):
                 # nothing was sent: neither the table nor a counter may move (the model is not advanced)
                 self.stats['send_refused'] += 1
